@@ -15,6 +15,10 @@ CONSTANTS
   ReaderNoWsRule = FALSE
   MemoMode = "none"
   RejectStoresEmpty = FALSE
+  UseN = TRUE
+  WithBuild = FALSE
+  TrustSourceClass = FALSE
+  ParseLeavesUnchecked = FALSE
   EmitH = FALSE
 SPECIFICATION HSpec
 VIEW HView
